@@ -24,12 +24,36 @@ def items(tier):
                 for side in ("low", "high"):
                     out.append({"kind": "extreme", "metric": metric, "sc": sc, "ec": ec, "P": P, "N": N, "K": K, "side": side})
     for metric in ("tpr", "tnr", "topr", "tonr"):
-        out.append({"kind": "fbits", "metric": metric, "nmax": 4 if tier == "quick" else 8, "kmax": 8 if tier == "quick" else 40})
+        out.append({"kind": "fbits", "metric": metric, "nmax": 4 if tier == "quick" else 8, "kmax": 40 if tier == "quick" else 400})
+    # mixed dtypes: integer scores in one class, float scores in the other (pooled metrics must not truncate)
+    for metric in ("topr", "tonr"):
+        for sc, ec in CFGS:
+            for ints in ("neg", "pos"):
+                for side in ("low", "high"):
+                    out.append({"kind": "mixed", "metric": metric, "sc": sc, "ec": ec, "ints": ints, "side": side})
     return out
 
 
 def run(h, kind, **p):
-    return run_extreme(h, **p) if kind == "extreme" else run_fbits(h, **p)
+    return {"extreme": run_extreme, "fbits": run_fbits, "mixed": run_mixed}[kind](h, **p)
+
+
+def run_mixed(h, metric, sc, ec, ints, side):
+    """one class holds integer scores (dtype int), the other floats; P=N=2, sorted."""
+    mk = lambda pre, isint: (h.ints(pre, 2, -4, 4) if isint else h.reals(pre, 2))
+    pos, neg = mk("p", ints == "pos"), mk("n", ints == "neg")
+    for a in (pos, neg):
+        h.assume(a[0] <= a[1])
+    h.policy(gather="fork", sort="fork")
+    S = h.sa.Scores(h.array(pos), h.array(neg), nb_easy_pos=1, nb_easy_neg=1, score_class=sc, equal_class=ec)
+    r = h.const("0") if side == "low" else h.const("1")
+    lo, hi = achievable(metric, 2, 2, 1, 1)
+    want = lo if side == "low" else hi
+    for method in ("linear", "lower", "higher"):
+        t = getattr(S, f"threshold_at_{metric}")(r, method=method)
+        cm = h.cells(S.cm(t).matrix)
+        own = {"topr": cm[0] + cm[2], "tonr": cm[1] + cm[3]}[metric]
+        h.check(f"mixed int/float scores: {metric} at the extreme target is exactly the extreme value ({method})", h.eq(own, want))
 
 
 def run_extreme(h, metric, sc, ec, P, N, K, side):
@@ -49,10 +73,11 @@ def run_extreme(h, metric, sc, ec, P, N, K, side):
 
 
 def run_fbits(h, metric, nmax, kmax):
-    """F-bits lemma, decided by exhaustive concrete evaluation of the float kernel (no solver needed: the
-    kernel `min(max(r - e, 0)/hr, 1)` has no symbolic input once r=1.0 and the counts are enumerated): an
-    extreme target must still be an extreme target after the real code's rescaling, i.e. the metric at
-    threshold_at_<metric>(1.0) is the highest achievable one for every small (n, k)."""
+    """F-bits lemma: an extreme target must still be an extreme target after the real code's float64 rescaling
+    `min(max(r - easy, 0)/hard, 1)`.  Round-to-nearest subtraction, division, min and max are monotone in r, so
+    'for all doubles r >= 1.0' reduces to the single point r = 1.0; with the counts (n, k) enumerated the kernel has
+    no symbolic input left and is decided by evaluating the real code (auxiliary to the solver items; it is an
+    enumeration over (n, k), stated as such in the evidence)."""
     if h.mode == "sym":
         # the symbolic harness only schedules the concrete sweep: it has no symbolic input
         from symx.harness import replay as _rp, real_sa
@@ -70,7 +95,7 @@ def run_fbits(h, metric, nmax, kmax):
     np = h.np
     bad = []
     for n in range(1, nmax + 1):
-        for k in range(0, kmax + 1):
+        for k in list(range(0, kmax + 1)) + [100, 333, 1000, 3333, 5000, 10 ** 4, 10 ** 5, 10 ** 6]:
             for sc, ec in CFGS:
                 kw = {"nb_easy_pos": k} if metric in ("tpr", "topr") else {"nb_easy_neg": k}
                 if metric in ("tpr",):
